@@ -316,8 +316,11 @@ class Check:
 
     def write_evidence(self, results, violations, known_lines, status="ok"):
         os.makedirs(os.path.join(VERIF, "evidence"), exist_ok=True)
-        n = len(results)
-        proved = sum(1 for r in results if r.status == "proved")
+        # obligations matched to a recorded finding are reported separately: they are not claimed as proved and not counted
+        kf = [r for r in results if r.meta.get("known_finding")]
+        counted = [r for r in results if not r.meta.get("known_finding")]
+        n = len(counted)
+        proved = sum(1 for r in counted if r.status == "proved")
         backends = {}
         for r in results:
             backends[r.backend] = backends.get(r.backend, 0) + 1
@@ -334,6 +337,7 @@ class Check:
             "discharged": proved,
             "checker_cmd": f"./check {self.pid} --tier {self.tier}",
             "trusted_base": sorted(set(self.trusted)),
+            "known_finding_obligations": [{"name": r.name, "finding": r.meta.get("known_finding"), "status": r.status} for r in kf],
             "functions_under_contract": self.functions,
             "backends": backends,
             "solver_time_s": round(sum(r.time_s for r in results), 3),
